@@ -28,7 +28,7 @@ MODELLED = {
     "dlog": "X_dlog", "com_eq": "X_com_eq", "com_enc_eq": "X_com_enc_eq", "com_mult": "X_com_mult",
     "aggregate_dlog": "X_aggregate_dlog", "and(dlog,com_eq)": "X_and_dlog_com_eq",
     "replicate(dlog)": "X_replicate_dlog", "com_lin": "X_com_lin", "com_eq_different_groups": "X_com_eq_diff",
-    "enc_trans": "X_enc_trans", "com_ineq/com_mult": "X_com_mult", "vcom_eq": "X_vcom_eq", "com_eq_sig": "X_com_eq_sig",
+    "enc_trans": "X_enc_trans", "com_ineq/com_mult": "X_com_mult", "vcom_eq": "X_vcom_eq", "com_eq_sig": "X_com_eq_sig", "ps_sig_known": "X_ps_sig_known",
 }
 PREAMBLE = ("From Coq Require Import ZArith NArith List.\n"
             "From CB Require Import Crypto.Alg Crypto.Transcript Crypto.SigmaGeneric Crypto.SigmaCodec Crypto.SigmaExec Crypto.Sigma_com_ineq.\n"
@@ -55,7 +55,12 @@ def kind(k):
 
 def model_pubs(cs, pubs):
     # com_eq_sig: the flat layout does not determine (n, key length); the model takes n as first element
-    return ([cs["n"]] + list(pubs)) if cs["p"] == "com_eq_sig" else pubs
+    return ([cs["n"]] + list(pubs)) if cs["p"] in ("com_eq_sig", "ps_sig_known") else pubs
+
+
+def model_vals(cs, xs):
+    # ps_sig_known: witness and response lists are parsed by message kind, which needs the number of messages
+    return ([cs["n"]] + list(xs)) if cs["p"] == "ps_sig_known" else xs
 
 
 def case_ctx(k, cs):
@@ -113,13 +118,13 @@ def honest_expr(cs):
     k = kind(cs["k"])
     return HEXOUT_H % "x_honest %s %s %s %s %s (scalar_from_bytes_bls %s) %s" % (
         MODELLED[cs["p"]], k, case_ctx(k, cs), zl(model_pubs(cs, [int(x, 16) for x in cs["pub"]])),
-        zl([int(x, 16) for x in cs["wit"]]), nl(bytes.fromhex(cs["chal"])), zl(scalars(cs)))
+        zl(model_vals(cs, [int(x, 16) for x in cs["wit"]])), nl(bytes.fromhex(cs["chal"])), zl(model_vals(cs, scalars(cs))))
 
 
 def verify_expr(cs, pubs, resp):
     k = kind(cs["k"])
     return HEXOUT_V % ("x_verify %s %s %s %s %s %s" % (MODELLED[cs["p"]], k, case_ctx(k, cs), zl(model_pubs(cs, pubs)),
-                                                       nl(bytes.fromhex(cs["chal"])), zl(resp)))
+                                                       nl(bytes.fromhex(cs["chal"])), zl(model_vals(cs, resp))))
 
 
 def flat_ints(t, out):
@@ -208,7 +213,7 @@ def run(ctx):
         ctx.violation({"layer": "harness build against /repo", "error": binp},
                       "harness no longer builds against the implementation", no_input=True)
         return
-    budget = 1 if ctx.quick else 8
+    budget = 1 if ctx.quick else 4
     rc, out = c.run_bin(binp, ["cases", ctx.seed, budget], timeout=2400)
     if rc != 0:
         ctx.violation({"layer": "harness run", "output": out[-2000:]}, "harness crashed", no_input=True)
@@ -302,7 +307,8 @@ def run(ctx):
             viol({"case": cs, "perturbation": pe}, "%s: proof still accepted after altering %s" % (key, nm))
 
     # ------------------------------------------------------------ correspondence with the Coq model
-    mod_cases = [cs for cs in cases if cs["p"] in MODELLED and cs.get("made") is True]
+    mod_cases = [cs for cs in cases if cs["p"] in MODELLED and cs.get("made") is True
+                 and not (ctx.quick and cs.get("variant") == "small")]  # quick: four of the five variants are model-checked
     exprs, meta = [], []
     for i, cs in enumerate(mod_cases):
         exprs.append(honest_expr(cs))
@@ -310,6 +316,8 @@ def run(ctx):
         pubs = [int(x, 16) for x in cs["pub"]]
         resp = scalars(cs)
         todo = [pe for pe in cs["pert"] if pe[0].startswith("pub") or pe[0].startswith("resp")]
+        if ctx.quick and cs.get("variant") not in ("random", "identity_generator"):
+            todo = [pe for pe in todo if not pe[1]]  # quick: perturbed-proof correspondence on two variants (+ every acceptance)
         cap = 5 if ctx.quick else 12
         if len(todo) > cap:  # first/last public field, first/last response component, everything that was accepted
             pubp = [pe for pe in todo if pe[0].startswith("pub")]
@@ -460,9 +468,12 @@ def run(ctx):
     ctx.cov["samples"] += [{k: v for k, v in cs.items() if k in ("p", "n", "variant", "k", "ctx", "pub", "wit", "chal", "resp")}
                            for cs in cases[:2]]
     ctx.cov["rule"] = ("per round and variant (random, zero witness, all generators equal, identity-point generators, small scalars): "
-                       "dlog, com_eq, com_enc_eq, com_mult, com_eq_different_groups, and(dlog,com_eq), and sizes 0,1,2,17 (rotating) of "
-                       "aggregate_dlog, com_lin, vcom_eq, replicate(dlog); each under TranscriptProtocolV1 and legacy RandomOracle with a random "
-                       "context (domain + labelled messages); com_ineq separately. Non-trivial = the prover produced a proof. "
+                       "dlog, com_eq, com_enc_eq, com_mult, com_eq_different_groups, and(dlog,com_eq); sizes 0,1,2,17 (rotating, + random) of "
+                       "aggregate_dlog, com_lin, vcom_eq, replicate(dlog); enc_trans with 0,1,2,4 chunks; com_eq_sig and ps_sig_known with the number "
+                       "of messages equal to / one below the key length (0,1,2,3,6); each under TranscriptProtocolV1 and legacy RandomOracle with a "
+                       "random context (domain + labelled messages); com_ineq separately (+ its inner ComMult proof in the exponent). Every case: "
+                       "completeness, one-at-a-time perturbation of every public field / context / challenge / response component / transcript kind, "
+                       "and for vector-valued responses the crafted truncated-response attack. Non-trivial = the prover produced a proof. "
                        "Distinct = distinct hash of (protocol, size, variant, kind, statement, witness, context, proof).")
     if proof_broken:
         ctx.violation({"layer": "Coq proof obligations", "broken": proof_broken},
